@@ -1,4 +1,5 @@
 #!/bin/bash
+export PYVC_EVIDENCE_DIR=/tmp/pyvc_scratch_evidence   # checks against changed trees must not overwrite /verif/evidence
 # tools/seed_eval.sh <seed id> <dir with patch.diff demo.py meta.json> [checks...]
 # 1. confirms the seeded change independently in a fresh scratch worktree:
 #      demo passes on the unchanged tree, the 75 tests pass with the change, demo fails with it
